@@ -198,6 +198,19 @@ def run(ctx):
         if e == 0:
             continue
         add(Expr(e, target_idx=tg), f"rewire{n}")
+    # explicitly declared EMPTY target list with contracted indices that
+    # occur once per term (the summation convention alone would call them
+    # targets)
+    from adcgen.sympy_objects import NonSymmetricTensor as _NST
+    for n in range(6 if quick else 30):
+        occ, virt = G.pool("o", 6), G.pool("v", 6)
+        i_, j_, k_ = rng.sample(occ[:5], 3)
+        a_ = rng.choice(virt[:3])
+        e = (G.random_coef(rng) * _NST("X", (i_, j_)) * _NST("Y", (j_,))
+             + G.random_coef(rng) * _NST("X", (i_, k_)) * _NST("Y", (k_,)))
+        if n % 2:
+            e = e * _NST("Z", (a_,))
+        add(Expr(e, target_idx=[]), f"emptytg{n}")
     for label, E in derivations.captured_simplify_inputs(ctx, quick):
         add(E, label)
 
@@ -236,7 +249,24 @@ def run(ctx):
                  "correspondence": "check_equiv (Core/Equiv.v) rejected the "
                  "pair"}, p.diff is not None)
         # structural clauses
-        same_assump = (out.assumptions == E.assumptions)
+        # compared on the stored attributes, not only through the
+        # `assumptions` property (both sides of that comparison would go
+        # through the same code): an explicitly empty target tuple is not
+        # "no targets given"
+        def _tg(x):
+            t_ = x.provided_target_idx
+            return None if t_ is None else tuple(t_)
+
+        def _term_targets(x):
+            return {tuple(sorted(str(i) for i in t_.target))
+                    for t_ in x.terms} if x.sympy != 0 else set()
+        same_assump = (out.assumptions == E.assumptions
+                       and _tg(out) == _tg(E)
+                       and out.real == E.real
+                       and tuple(out.sym_tensors) == tuple(E.sym_tensors)
+                       and tuple(out.antisym_tensors)
+                       == tuple(E.antisym_tensors)
+                       and _term_targets(out) <= _term_targets(E))
         if not ctx.obligation(f"simplify keeps targets/assumptions {p.label}",
                               same_assump):
             ctx.violation(f"C07:assumptions:{p.label}",
